@@ -137,11 +137,12 @@ Definition ex_rows : list cf_row :=
 Definition ex_cfg : fs_cfg :=
   {| fg_ext := false; fg_c := 2; fg_dedup := true; fg_nlevels := 2; fg_decoys := true; fg_append := false;
      fg_glob := false;
-     fg_colls := [ {| fc_pfx := 0; fc_rows := ex_rows |}; {| fc_pfx := 0; fc_rows := ex_rows |} ] |}.
+     fg_colls := [ {| fc_pfx := 0; fc_rows := ex_rows |}; {| fc_pfx := 0; fc_rows := ex_rows |};
+                   {| fc_pfx := 3; fc_rows := ex_rows |} ] |}.
 (* leftovers: a stale chunk file with the run's own prefix, a stale level file, an old result file *)
 Definition ex_dirty : cfs :=
   [ (NChunk 0 7 false, fs_plain ex_rows); (NLevel 1 false, fs_plain ex_rows);
-    (NResult 0 false 0, fs_plain ex_rows); (NOther 5, []) ].
+    (NResult 0 false 0, fs_plain ex_rows); (NResult 3 false 0, fs_plain ex_rows); (NOther 5, []) ].
 
 Example C09_run_ok_satisfiable : run_ok ex_cfg.
 Proof. repeat split. Qed.
@@ -154,6 +155,8 @@ Example C09_example_run :
       map (fs_get ccontent a) (fs_result_names ex_cfg) = map (fs_get ccontent b) (fs_result_names ex_cfg) /\
       map (fun c => map (fun r => cf_id (fst r)) c) (match fs_get ccontent a (NResult 0 false 0) with Some c => [c] | None => [] end)
         = [[1; 3; 5; 1; 3; 5]] /\
+      map (fun c => map (fun r => cf_id (fst r)) c) (match fs_get ccontent a (NResult 3 false 0) with Some c => [c] | None => [] end)
+        = [[1; 3; 5]] /\
       fs_get ccontent a (NLevel 1 false) = None /\ fs_get ccontent a (NChunk 0 0 false) = None /\
       fs_get ccontent a (NChunk 0 7 false) = Some (fs_plain ex_rows) /\ fs_get ccontent a (NOther 5) = Some []
   | _, _ => False
